@@ -137,7 +137,14 @@ BaseCases == {[t |-> t, what |-> "base", i |-> 0, key |-> "", c |-> "", kind |->
 \* these cases over every (role, feature) pair the library knows for that message type
 FeatureCases == {[t |-> t, what |-> "feature", i |-> 0, key |-> "", c |-> c, kind |-> "bool", verdict |-> KeyVerdict("bool", c)] :
                    t \in {"hello", "welcome"}, c \in Classes}
-Cases == BaseCases \cup PosCasesOk \cup KeyCases \cup LenCasesOk \cup FeatureCases
+\* ERROR answers exactly the seven request types; every other code (incl. the codes of all other messages) is refused
+ReqTypes == {16, 32, 34, 48, 64, 66, 68}      \* PUBLISH SUBSCRIBE UNSUBSCRIBE CALL REGISTER UNREGISTER INVOCATION
+ReqTypeVerdict(code) == IF code \in ReqTypes THEN "accept" ELSE "reject"
+ReqTypeCases == {[t |-> "error", what |-> "reqtype", i |-> code, key |-> "", c |-> "", kind |-> "reqtype", verdict |-> ReqTypeVerdict(code)] :
+                   code \in 0..80}
+\* several role features at once (expanded by the driver over every role and neighbouring feature pairs / all features)
+FeatureSetCases == {[t |-> t, what |-> "features", i |-> 0, key |-> "", c |-> "true", kind |-> "bool", verdict |-> "accept"] : t \in {"hello", "welcome"}}
+Cases == BaseCases \cup PosCasesOk \cup KeyCases \cup LenCasesOk \cup FeatureCases \cup ReqTypeCases \cup FeatureSetCases
 
 TableSane ==
   /\ Cardinality(TypeNames) = 25 /\ Cardinality(Codes) = 25
